@@ -1,10 +1,7 @@
 (* C03 Canonical string has exactly the documented shape and escaping *)
 Load "coq/props/Hdr".
 From PM Require Import C03.
-Lemma src_rt : rt_ok cfg. Proof. apply conds_rt_ok. vm_compute. reflexivity. Qed.
-Lemma src_tbl : tbl_ok cfg. Proof. apply conds_tbl_ok. vm_compute. reflexivity. Qed.
-Lemma src_cfg_ok : cfg_ok cfg. Proof. exact (rt_cfg _ src_rt). Qed.
-Ltac sc := sidecond_with src_rt src_tbl.
+Lemma src_cfg_ok : cfg_ok cfg. Proof. sc. Qed.
 Theorem C03_escape_sets : forall (p : pos) (b : byte), should_encode (set_of cfg p) b = spec_escaped p b.
 Proof. apply C03_sets. vm_compute. reflexivity. Qed.
 Print Assumptions C03_escape_sets.
